@@ -101,6 +101,9 @@ def result_digest(name, res):
     if name.startswith("viterbi"):
         def d(x): return (x.rule.lhs.name, sorted((str(k.id) if isinstance(k.id, str) else "#", v) for k, v in x.asst.items()), [d(c) for c in x.children.values()])
         return [h64(repr(d(res)))]
+    if name.startswith("factorize_rule"):
+        idmap = {}
+        return [h64(r.lhs.name + "->" + graph_snap(r.rhs, idmap)) for r in res]
     if name.startswith("factorize") or name.startswith("conjoin"):
         return [h64(p) for p in hrg_snap(res, with_interp=hasattr(res, "domains"))]
     if name.startswith("json"):
@@ -122,6 +125,11 @@ def make_queries(rng, spec):
     for meth in ("min_fill", "quickbb", "acb"):
         qs.append(("factorize_fgg[%s]" % meth, lambda g, meth=meth: fggs.factorize_fgg(g, method=meth)))
     qs.append(("factorize_hrg", lambda g: fggs.factorize_hrg(g)))
+    nr = len(spec["rules"])
+    if nr:
+        for ri in sorted({0, nr - 1, rng.randrange(nr)}):
+            # direct calls with the documented `labels` argument omitted: results must not depend on earlier calls
+            qs.append(("factorize_rule[%d]" % ri, lambda g, ri=ri: fggs.factorize_rule(g.all_rules()[ri])))
     qs.append(("conjoin_hrgs", lambda g: fggs.conjoin_hrgs(g, g)))
     qs.append(("json", lambda g: fggs.fgg_to_json(g)))
     return qs
@@ -196,6 +204,15 @@ def run(tier, seed):
         seq = [rng.choice(qs) for _ in range(rng.randint(6, 10))]
         first = {}
         for name, q in seq:
+            if rng.random() < 0.25 and g.factors:
+                # the caller updates a weight tensor in place (as an optimiser step does); every later
+                # query must see the new values (no stale caches), which the fresh-copy comparison checks
+                fac = rng.choice(list(g.factors.values()))
+                with torch.no_grad():
+                    w = fac.weights
+                    (w.physical if hasattr(w, "physical") else w).mul_(0.5)
+                first = {}
+                hist["<inplace weight update>"] = hist.get("<inplace weight update>", 0) + 1
             hist[name.split("[")[0]] = hist.get(name.split("[")[0], 0) + 1
             fresh = g.copy()
             if rg:
